@@ -33,6 +33,8 @@ def _texts(m):
     for key in ("scalars", "enums", "inputs", "interfaces", "objects", "unions", "directives"):
         for x in m[key]:
             yield x.get("desc")
+            if key == "directives":
+                yield x.get("dep")
             for v in x.get("values", []):
                 yield v["desc"]
                 yield v["dep"]
@@ -72,12 +74,22 @@ def nontrivial(m):
     return odd and any(isinstance(d, (list, dict)) for d in _defaults(m))
 
 
-def eval_model(m, order, mode):
-    from graphql import build_schema, print_schema, validate_schema
+def eval_model(m, order, mode, dep_dirs=()):
+    from graphql import build_schema as _build_schema, print_schema, validate_schema
     from graphql.utilities import find_schema_changes
 
     m = g2.as_model(m)
-    case = {"model": dict(m), "order": order, "mode": mode}
+    case = {"model": dict(m), "order": order, "mode": mode, "dep_dirs": list(dep_dirs)}
+    m = g2.as_model({**m, "directives": [dict(d) for d in m["directives"]]})
+    for i, d in enumerate(m["directives"]):
+        if i < len(dep_dirs) and dep_dirs[i] is not None:
+            d["dep"] = dep_dirs[i]
+    # `directive @d @deprecated on ...` is experimental syntax: the parser accepts it on request only
+    dep_dir = any(d.get("dep") is not None for d in m["directives"])
+
+    def build_schema(text):
+        return _build_schema(text, experimental_directives_on_directive_definitions=dep_dir)
+
     cls = text_class(m)
     vs = []
 
@@ -174,7 +186,8 @@ def _model_text_diff(m, s):
         td = s.get_directive(d["name"])
         if td is None:
             return f"directive {d['name']} missing"
-        r = chk(f"@{d['name']}.description", d["desc"], td.description)
+        r = chk(f"@{d['name']}.description", d["desc"], td.description) or \
+            chk(f"@{d['name']}.deprecation", d.get("dep"), td.deprecation_reason)
         if r:
             return r
         for a in d["args"]:
@@ -190,11 +203,14 @@ def _models(nex):
     def fn(ctx, shard, nshards):
         def dec(c):
             return {"model": dict(g2.g_model(c)), "order": c.ints(8) if c.chance(128) else [],
-                    "mode": c.choose(["sdl", "prog"])}
+                    "mode": c.choose(["sdl", "prog"]),
+                    "dep_dirs": [g2.g_dep(c, 128) for _ in range(3)] if c.chance(60) else []}
 
         def body(case):
-            vs = eval_model(case["model"], case["order"], case["mode"])
+            vs = eval_model(case["model"], case["order"], case["mode"], case["dep_dirs"])
             ctx.count()
+            if any(x is not None for x in case["dep_dirs"][:len(case["model"]["directives"])]):
+                ctx.cls("deprecated-directive")
             ctx.cls("mode:" + case["mode"])
             cls = text_class(g2.as_model(case["model"]))
             ctx.cls("text:" + cls)
@@ -215,4 +231,4 @@ def subchecks(tier):
 
 
 def replay(case):
-    return eval_model(case["model"], case["order"], case["mode"])
+    return eval_model(case["model"], case["order"], case["mode"], case.get("dep_dirs", ()))
